@@ -6,6 +6,7 @@
 // ASan+UBSan shards.  Reference model: per object the creator's explicit references plus the handle
 // slots plus the member handles of live objects pointing at it; an object whose count reaches 0 dies
 // and thereby releases its member (cascade).
+#include <type_traits>
 #include "C10_seqmc.h"
 
 #include "rkcommon/memory/IntrusivePtr.h"
@@ -86,7 +87,8 @@ struct PtrSys
     AS_COPY_MEM, AS_RAW_MEM,            // h_i = h_j->next / h_i = h_j->next.ptr   (i == j: the list walk)
     CT_COPY_MEM, CT_MOVE_MEM,           // h_i(h_j->next) / h_i(std::move(h_j->next))
     SETDMEM, SETDMEM_NULL,              // obj0.dnext = h2 / = null
-    AS_CONV_MEM, CT_CONV_MEM            // h_i = h_j->dnext / h_i(h_j->dnext): Base handle from a Derived member handle
+    AS_CONV_MEM, CT_CONV_MEM,           // h_i = h_j->dnext / h_i(h_j->dnext): Base handle from a Derived member handle
+    CT_CONV_MOVE                        // h_i(std::move(h2)): Base handle from an RVALUE Derived handle
   };
   struct Op
   {
@@ -123,8 +125,10 @@ struct PtrSys
     for (int i = 0; i < 2; i++)
       for (int j = 0; j < 2; j++)
         ops.push_back(Op{AS_MOVE, i, j, "h" + S(i) + "=mv-h" + S(j), i == j ? "move-assign to itself" : "move-assign"});
-    for (int i = 0; i < 2; i++)
+    for (int i = 0; i < 2; i++) {
       ops.push_back(Op{CT_CONV, i, 2, "h" + S(i) + "(h2)", "converting construct Derived->Base"});
+      ops.push_back(Op{CT_CONV_MOVE, i, 2, "h" + S(i) + "(mv-h2)", "converting construct Derived->Base from an rvalue"});
+    }
     for (int i = 0; i < 2; i++)
       ops.push_back(Op{AS_CONV, i, 2, "h" + S(i) + "=h2", "assign converted Derived->Base handle"});
     for (int k = 0; k < 2; k++)
@@ -171,7 +175,7 @@ struct PtrSys
 
   static bool constructs_slot(Kind k)
   {
-    return k == CT_DEFAULT || k == CT_RAW || k == CT_RAWNULL || k == CT_COPY || k == CT_MOVE || k == CT_CONV || k == ADOPT || k == CT_COPY_MEM || k == CT_MOVE_MEM || k == CT_CONV_MEM;
+    return k == CT_DEFAULT || k == CT_RAW || k == CT_RAWNULL || k == CT_COPY || k == CT_MOVE || k == CT_CONV || k == ADOPT || k == CT_COPY_MEM || k == CT_MOVE_MEM || k == CT_CONV_MEM || k == CT_CONV_MOVE;
   }
   bool enabled(const Model &m, int op) const
   {
@@ -195,6 +199,7 @@ struct PtrSys
     case CT_COPY:
     case CT_MOVE:
     case CT_CONV:
+    case CT_CONV_MOVE:
       return !m.cons[o.a] && m.cons[o.b];
     case AS_RAW:
       return m.cons[o.a] && m.alive[o.b];
@@ -282,6 +287,7 @@ struct PtrSys
       m.tgt[o.a] = m.tgt[o.b];
       break;
     case CT_MOVE:
+    case CT_CONV_MOVE:
       m.cons[o.a] = 1;
       m.tgt[o.a] = m.tgt[o.b];
       m.tgt[o.b] = -1;
@@ -444,6 +450,9 @@ struct PtrSys
       case CT_CONV:
         hb[o.a] = new BPtr(*hd);
         break;
+      case CT_CONV_MOVE:
+        hb[o.a] = new BPtr(std::move(*hd));
+        break;
       case AS_RAW:
         if (o.a < 2)
           *hb[o.a] = raw[o.b];
@@ -541,6 +550,22 @@ struct PtrSys
         if (o.kind == AS_MOVE || o.kind == CT_MOVE) {
           src = hb[o.b];
           srctgt = before.tgt[o.b];
+        }
+        bool dsrc_keeps = false;  // CT_CONV_MOVE: the source is the Derived handle (its own type, judged the same way)
+        if (o.kind == CT_CONV_MOVE && before.tgt[2] >= 0 && hd->ptr != nullptr) {
+          if (static_cast<Base *>(hd->ptr) != raw[before.tgt[2]]) {
+            ctx.viol(o.cls + "|handle points at something it was never given", "after the move the source handle is neither null nor its old object");
+            return;
+          }
+          dsrc_keeps = true;
+        }
+        if (dsrc_keeps) {
+          model = before;
+          model.cons[o.a] = 1;
+          model.tgt[o.a] = before.tgt[2];
+          died[0] = died[1] = false;
+          settle(model, died);
+          ctx.diverged = true;
         } else if (o.kind == CT_MOVE_MEM) {
           src = member[before.tgt[o.b]];
           srctgt = before.mem[before.tgt[o.b]];
@@ -705,6 +730,53 @@ static std::string arg_str(int argc, char **argv, const char *name, const std::s
   return dflt;
 }
 
+// ---------------------------------------------------------------------------------------------------------
+// comparisons between handles of DIFFERENT (related) pointee types.  They compile on every tree - through the
+// typed operator== or, where that is missing, through operator bool() on both sides, which answers "both are
+// non-null" - so they are part of "handles compare equal exactly when they point at the same object".  One pair
+// has the reference-counted base as its second base class, so that the two typed pointers differ as addresses.
+struct NamedPart
+{
+  virtual ~NamedPart() {}
+  long pad[3] = {1, 2, 3};
+};
+struct TwoBases : NamedPart, rkcommon::memory::RefCountedObject
+{
+};
+struct PlainBase : rkcommon::memory::RefCountedObject
+{
+  int b = 1;
+};
+struct PlainDerived : PlainBase
+{
+  int d = 2;
+};
+template <class D, class B>
+static void mixed_compare(const char *what)
+{
+  D *o1 = new D, *o2 = new D;
+  {
+    IntrusivePtr<D> d1(o1), d2(o2), dn;
+    IntrusivePtr<B> b1(d1), b2(d2), bn;
+    const bool same = (b1 == d1) && (d1 == b1) && !(b1 != d1) && !(d1 != b1) && (bn == dn) && !(bn != dn);
+    const bool diff = !(b1 == d2) && (b1 != d2) && !(d2 == b1) && (d2 != b1) && !(b1 == dn) && (dn != b1);
+    vr::stat("states");
+    vr::stat("transitions", 12);
+    if (vr::replaying())
+      printf("%s: same object compares equal: %s; different objects / null compare unequal: %s\n", what, same ? "yes" : "NO", diff ? "yes" : "NO");
+    if (!same || !diff)
+      vr::violation("IntrusivePtr|comparison of handles with different pointee types|" + std::string(!same ? "the same object compares unequal" : "different objects compare equal"),
+          "mixedcmp:", std::string(what) + ": IntrusivePtr<Derived> against an IntrusivePtr<Base> " + (!same ? "converted from it" : "to another object"));
+  }
+  o1->refDec();
+  o2->refDec();
+}
+static void mixed_compare_all()
+{
+  mixed_compare<PlainDerived, PlainBase>("single inheritance");
+  mixed_compare<TwoBases, rkcommon::memory::RefCountedObject>("reference-counted base is the second base class");
+}
+
 int main(int argc, char **argv)
 {
   vr::init(argc, argv);
@@ -713,9 +785,15 @@ int main(int argc, char **argv)
     sq::replay_symbolized(argv);
     std::string r = vr::S().replay;
     size_t c = r.find(':');
+    if (r.compare(0, 9, "mixedcmp:") == 0) {
+      mixed_compare_all();
+      vr::flush();
+      return vr::S().viols.empty() ? 0 : 1;
+    }
     return sq::Explorer<PtrSys>(sys, 0).replay(c == std::string::npos ? "" : r.substr(c + 1));
   }
   const int depth = atoi(arg_str(argc, argv, "--depth", vr::thorough() ? "7" : "6").c_str());
+  mixed_compare_all();
   sq::Explorer<PtrSys>(sys, depth, 128).explore();
   return vr::finish();
 }
